@@ -11,17 +11,17 @@ import (
 )
 
 func init() {
-	register(&Rule{Name: "EFFECT-WRITE", Floor: 7, Run: ruleEffectWrite,
+	register(&Rule{Name: "EFFECT-WRITE", Floor: 3, Run: ruleEffectWrite,
 		Doc: "file-mutating library calls occur only inside the native filesystem adapter; Filesystem.WriteFile is invoked only by the PEM export and by PutConfig; the export's file name is the configuration path up to its last dot plus .pem; PutConfig writes only for an alias it did not know; nothing reachable from the CLI deletes files"})
-	register(&Rule{Name: "ABORT-BEFORE-WRITE", Floor: 6, Run: ruleAbortBeforeWrite,
+	register(&Rule{Name: "ABORT-BEFORE-WRITE", Floor: 3, Run: ruleAbortBeforeWrite,
 		Doc: "opening the directory and planning cannot write (their call-graph closures contain no file mutation); a failed subject validation is an error of planning; the CLI reaches generation only after Open and planning succeeded"})
-	register(&Rule{Name: "GUARD-CONSENT", Floor: 5, Run: ruleGuardConsent,
+	register(&Rule{Name: "GUARD-CONSENT", Floor: 2, Run: ruleGuardConsent,
 		Doc: "the CLI reaches BulkUpdate only when no planned change replaces an existing certificate, or after the user's answer, trimmed and lower-cased, equals y and reading it did not fail; otherwise the process exits without generating"})
-	register(&Rule{Name: "GUARD-OPEN", Floor: 3, Run: ruleGuardOpen,
+	register(&Rule{Name: "GUARD-OPEN", Floor: 1, Run: ruleGuardOpen,
 		Doc: "Open succeeds only when the consistency check holds; the check compares the number of entities reachable from the roots through subscriber lists with the number of entities"})
-	register(&Rule{Name: "ORDER", Floor: 6, Run: ruleOrder, Fixture: "fixture.spawns",
+	register(&Rule{Name: "ORDER", Floor: 3, Run: ruleOrder, Fixture: "fixture.spawns",
 		Doc: "BulkUpdate processes the change list in order and per change stores the configuration, generates and stores the artifact, in that order and for that change's alias; the module starts no goroutine and uses no channel (one schedule)"})
-	register(&Rule{Name: "EFFECT-DET", Floor: 2, Run: ruleEffectDet,
+	register(&Rule{Name: "EFFECT-DET", Floor: 1, Run: ruleEffectDet,
 		Doc: "the configuration hash is a deterministic function of the configuration: its call-graph closure reads no clock, no randomness and ranges over no map"})
 }
 
@@ -340,24 +340,29 @@ func ruleGuardConsent(c *Ctx, r *Rep) {
 	listO := pv.Origins(bulk.Call.Args[1])
 	planO := pv.Origins(plan)
 	r.Check(len(listO) == 1 && len(planO) == 1 && listO[0] == planO[0]+"#0", "generates-the-plan", c.Pos(bulk.Pos()), "BulkUpdate executes exactly the planned change list", strings.Join(listO, ","))
-	B := bulk.Block()
-	// classify the ways into B by the branch conditions known on each incoming edge
-	nFlag, nConsent := 0, 0
+	if len(planO) != 1 {
+		return
+	}
+	planned := planO[0] + "#0"
 	wantAnswer := "strings.ToLower(strings.TrimSpace((*bufio.Reader).ReadString(bufio.NewReader(G(os.Stdin))|K(10))#0))"
-	for _, p := range B.Preds {
-		live := false
-		for _, sx := range succs(p) { // edges after os.Exit are not real
-			if sx == B {
-				live = true
-			}
-		}
-		if !live {
-			continue
-		}
-		facts := append(edgeGuard(p, B), guardsOf(p)...)
+	B := bulk.Block()
+
+	// One "way into generation" = the branch facts known on it. Each way must be the no-overwrite way (no planned change is
+	// a replacement) or the consent way (the answer y was read without error). The facts may be tested in place, through
+	// boolean helpers, or inside a gate function that ends the process otherwise.
+	type verdict struct {
+		kind string // "flag" | "consent" | ""
+		ok   bool
+		why  string
+		pos  token.Pos
+	}
+	var classify func(facts []guard) verdict
+	classify = func(facts []guard) verdict {
 		var flagFact *guard
 		answerYes, readOK := false, false
 		var answerPos token.Pos
+		var helperFlag *guard
+		helperFlagOK, helperFlagWhy := false, ""
 		for i := range facts {
 			g := facts[i]
 			switch cond := g.Cond.(type) {
@@ -367,60 +372,64 @@ func ruleGuardConsent(c *Ctx, r *Rep) {
 				}
 			case *ssa.BinOp:
 				if k, isK := cond.Y.(*ssa.Const); isK && k.Value != nil && k.Value.Kind() == constant.String && constant.StringVal(k.Value) == "y" {
-					o := pv.Origins(cond.X)
+					o := uniq(pv.origins(cond.X, 0))
 					if len(o) == 1 && o[0] == wantAnswer && ((cond.Op == token.EQL && g.Truth) || (cond.Op == token.NEQ && !g.Truth)) {
 						answerYes = true
 						answerPos = g.If.Pos()
 					}
 				}
 				if k, isK := cond.Y.(*ssa.Const); isK && k.Value == nil {
-					eo := pv.Origins(cond.X)
+					eo := uniq(pv.origins(cond.X, 0))
 					if len(eo) == 1 && strings.HasSuffix(eo[0], "ReadString(bufio.NewReader(G(os.Stdin))|K(10))#1") && ((cond.Op == token.EQL && g.Truth) || (cond.Op == token.NEQ && !g.Truth)) {
 						readOK = true
 					}
 				}
-			}
-		}
-		// the same two conditions computed by boolean helpers: flag(plannedList) false, or consent() true
-		helperFlagOK, helperFlagWhy := false, ""
-		var helperFlag *guard
-		for i := range facts {
-			g := facts[i]
-			call, ok := g.Cond.(*ssa.Call)
-			if !ok {
-				continue
-			}
-			f := call.Call.StaticCallee()
-			if f == nil || !c.InModule(f) || f.Blocks == nil || f.Signature.Results().Len() != 1 {
-				continue
-			}
-			if b, ok := f.Signature.Results().At(0).Type().Underlying().(*types.Basic); !ok || b.Kind() != types.Bool {
-				continue
-			}
-			bind := map[*ssa.Parameter][]string{}
-			for j, prm := range f.Params {
-				if j < len(call.Call.Args) {
-					bind[prm] = pv.Origins(call.Call.Args[j])
+				// len(<list of the planned replacements>) == 0
+				if k, isK := cond.Y.(*ssa.Const); isK && k.Value != nil && k.Value.Kind() == constant.Int && k.Int64() == 0 {
+					if lc, ok := cond.X.(*ssa.Call); ok {
+						if bi, isB := lc.Call.Value.(*ssa.Builtin); isB && bi.Name() == "len" {
+							empty := (cond.Op == token.EQL && g.Truth) || ((cond.Op == token.NEQ || cond.Op == token.GTR) && !g.Truth)
+							if empty {
+								for _, o := range uniq(pv.origins(lc.Call.Args[0], 0)) {
+									if ok2, why := replacementListOrigin(c, pv, o, planned); ok2 || why != "" {
+										helperFlag, helperFlagOK, helperFlagWhy = &facts[i], ok2, why
+									}
+								}
+							}
+						}
+					}
 				}
-			}
-			pv.binds = append(pv.binds, bind)
-			if g.Truth && consentHelper(c, pv, f, wantAnswer) {
-				answerYes, readOK = true, true
-				answerPos = call.Pos()
-			} else if !g.Truth {
-				if ok, why, is := overwriteFlagHelper(c, pv, f, planO[0]+"#0"); is {
-					helperFlag, helperFlagOK, helperFlagWhy = &facts[i], ok, why
+			case *ssa.Call:
+				f := cond.Call.StaticCallee()
+				if f == nil || !c.InModule(f) || f.Blocks == nil || f.Signature.Results().Len() != 1 {
+					continue
 				}
+				if b, ok := f.Signature.Results().At(0).Type().Underlying().(*types.Basic); !ok || b.Kind() != types.Bool {
+					continue
+				}
+				bind := map[*ssa.Parameter][]string{}
+				for j, prm := range f.Params {
+					if j < len(cond.Call.Args) {
+						bind[prm] = uniq(pv.origins(cond.Call.Args[j], 0))
+					}
+				}
+				pv.binds = append(pv.binds, bind)
+				if g.Truth && consentHelper(c, pv, f, wantAnswer) {
+					answerYes, readOK = true, true
+					answerPos = cond.Pos()
+				} else if !g.Truth {
+					if ok, why, is := overwriteFlagHelper(c, pv, f, planned); is {
+						helperFlag, helperFlagOK, helperFlagWhy = &facts[i], ok, why
+					}
+				}
+				pv.binds = pv.binds[:len(pv.binds)-1]
 			}
-			pv.binds = pv.binds[:len(pv.binds)-1]
 		}
 		switch {
 		case answerYes || readOK:
-			nConsent++
-			r.Check(answerYes && readOK, "consent-edge", c.Pos(answerPos), "answer == \"y\" after TrimSpace and ToLower, read from os.Stdin without error", sprintf("answer is y: %v, read error excluded: %v", answerYes, readOK))
+			return verdict{"consent", answerYes && readOK, sprintf("answer is y: %v, read error excluded: %v", answerYes, readOK), answerPos}
 		case helperFlag != nil:
-			nFlag++
-			r.Check(helperFlagOK, "no-overwrite-edge", c.Pos(helperFlag.If.Pos()), "taken only when no planned change has Change == ChangeReplace", helperFlagWhy)
+			return verdict{"flag", helperFlagOK, helperFlagWhy, helperFlag.If.Pos()}
 		case flagFact != nil:
 			cond := flagFact.Cond.(*ssa.Phi)
 			okFlag := true
@@ -443,8 +452,8 @@ func ruleGuardConsent(c *Ctx, r *Rep) {
 							continue
 						}
 						name := c.constName(kk.Type(), kk.Value)
-						o := pv.Origins(bin.X)
-						if strings.HasSuffix(name, "ChangeReplace") && len(o) == 1 && strings.HasPrefix(o[0], planO[0]+"#0") && strings.HasSuffix(o[0], ".Change") {
+						o := uniq(pv.origins(bin.X, 0))
+						if strings.HasSuffix(name, "ChangeReplace") && len(o) == 1 && strings.HasPrefix(o[0], planned) && strings.HasSuffix(o[0], ".Change") {
 							under = true
 						}
 					}
@@ -453,42 +462,243 @@ func ruleGuardConsent(c *Ctx, r *Rep) {
 					}
 				}
 			}
+			return verdict{"flag", okFlag, why, flagFact.If.Pos()}
+		}
+		return verdict{}
+	}
+
+	// the ways: edges into the generating block, or - when a gate function that can end the process dominates it - the
+	// gate's normal returns
+	type way struct {
+		facts []guard
+		desc  string
+		pos   token.Pos
+	}
+	var ways []way
+	var refusals []struct {
+		from *ssa.BasicBlock
+		pos  token.Pos
+	}
+	var gate *ssa.Call
+	for _, ci := range callsIn(cli) {
+		call, ok := ci.(*ssa.Call)
+		if !ok || !instrDominates(call, bulk) {
+			continue
+		}
+		g := call.Call.StaticCallee()
+		if g == nil || !c.InModule(g) || g.Blocks == nil || g.Pkg != cli.Pkg || g.Signature.Results().Len() != 0 {
+			continue
+		}
+		exits := false
+		for _, ci2 := range callsIn(g) {
+			if calleeFullName(ci2) == "os.Exit" {
+				exits = true
+			}
+		}
+		if exits {
+			gate = call
+		}
+	}
+	if gate != nil {
+		g := gate.Call.StaticCallee()
+		bind := map[*ssa.Parameter][]string{}
+		for j, prm := range g.Params {
+			if j < len(gate.Call.Args) {
+				bind[prm] = pv.Origins(gate.Call.Args[j])
+			}
+		}
+		pv.binds = append(pv.binds, bind)
+		defer func() { pv.binds = pv.binds[:len(pv.binds)-1] }()
+		for _, ret := range returnsOf(g) {
+			// a return behind os.Exit is not a way out
+			live := false
+			for _, p := range ret.Block().Preds {
+				for _, sx := range succs(p) {
+					if sx == ret.Block() {
+						live = true
+					}
+				}
+			}
+			if len(ret.Block().Preds) == 0 {
+				live = true
+			}
+			if !live {
+				continue
+			}
+			if len(ret.Block().Preds) <= 1 {
+				ways = append(ways, way{guardsOf(ret.Block()), "return of " + c.FuncKey(g), ret.Pos()})
+				continue
+			}
+			for _, p := range ret.Block().Preds {
+				isLive := false
+				for _, sx := range succs(p) {
+					if sx == ret.Block() {
+						isLive = true
+					}
+				}
+				if isLive {
+					ways = append(ways, way{append(edgeGuard(p, ret.Block()), guardsOf(p)...), sprintf("return of %s from block %d", c.FuncKey(g), p.Index), ret.Pos()})
+				}
+			}
+		}
+	} else {
+		for _, p := range B.Preds {
+			live := false
+			for _, sx := range succs(p) { // edges after os.Exit are not real
+				if sx == B {
+					live = true
+				}
+			}
+			if !live {
+				continue
+			}
+			ways = append(ways, way{append(edgeGuard(p, B), guardsOf(p)...), sprintf("block%d", p.Index), bulk.Pos()})
+		}
+	}
+	nFlag, nConsent := 0, 0
+	for _, wy := range ways {
+		v := classify(wy.facts)
+		switch v.kind {
+		case "consent":
+			nConsent++
+			r.Check(v.ok, "consent-edge", c.Pos(v.pos), "answer == \"y\" after TrimSpace and ToLower, read from os.Stdin without error", v.why)
+		case "flag":
 			nFlag++
-			r.Check(okFlag, "no-overwrite-edge", c.Pos(flagFact.If.Pos()), "taken only when no planned change has Change == ChangeReplace", why)
+			r.Check(v.ok, "no-overwrite-edge", c.Pos(v.pos), "taken only when no planned change has Change == ChangeReplace", v.why)
 		default:
-			r.Bad("entry-edge|"+sprintf("block%d", p.Index), c.Pos(bulk.Pos()), "every way into the generating block is the no-overwrite edge or the consent edge", "an edge from block "+sprintf("%d", p.Index)+" under neither condition")
+			r.Bad("entry-edge|"+wy.desc, c.Pos(wy.pos), "every way into generation is the no-overwrite way or the consent way", "a way ("+wy.desc+") under neither condition")
 		}
 	}
 	r.Check(nFlag == 1 && nConsent == 1, "entry-edges", c.Pos(bulk.Pos()), "exactly two ways into generation: nothing is overwritten, or the user consented", sprintf("%d flag edges, %d consent edges", nFlag, nConsent))
-	// a refusal ends the process: the blocks that print the abort message do not reach generation.
-	// (Edges after os.Exit are cut, so any path from the consent test that does not carry the consent facts must not reach B.)
-	for _, b := range cli.Blocks {
+
+	// a refusal ends the process: from the refusing side of the consent test generation cannot be reached
+	host := cli
+	target := B
+	if gate != nil {
+		host = gate.Call.StaticCallee()
+		target = nil
+	}
+	for _, b := range host.Blocks {
 		iff, ok := lastInstr(b).(*ssa.If)
 		if !ok {
 			continue
 		}
-		if call, isCall := iff.Cond.(*ssa.Call); isCall {
-			// the consent asked through a boolean helper: its false edge is the refusal
-			if f := call.Call.StaticCallee(); f != nil && c.InModule(f) && f.Blocks != nil && f.Signature.Results().Len() == 1 && consentHelper(c, pv, f, wantAnswer) {
-				reach := reachableFrom(b.Succs[1], nil)
-				r.Check(!reach[B], "refusal-exits", c.Pos(call.Pos()), "any other answer ends the process (os.Exit) without generating", sprintf("generation reachable: %v", reach[B]))
+		var refuse *ssa.BasicBlock
+		var pos token.Pos
+		cond := iff.Cond
+		neg := false
+		for {
+			if u, isU := cond.(*ssa.UnOp); isU && u.Op == token.NOT {
+				cond, neg = u.X, !neg
+				continue
 			}
-			continue
+			break
 		}
-		bin, ok := iff.Cond.(*ssa.BinOp)
-		if !ok {
-			continue
+		if call, isCall := cond.(*ssa.Call); isCall {
+			if f := call.Call.StaticCallee(); f != nil && c.InModule(f) && f.Blocks != nil && f.Signature.Results().Len() == 1 {
+				bind := map[*ssa.Parameter][]string{}
+				for j, prm := range f.Params {
+					if j < len(call.Call.Args) {
+						bind[prm] = uniq(pv.origins(call.Call.Args[j], 0))
+					}
+				}
+				pv.binds = append(pv.binds, bind)
+				is := consentHelper(c, pv, f, wantAnswer)
+				pv.binds = pv.binds[:len(pv.binds)-1]
+				if is {
+					refuse, pos = b.Succs[1], call.Pos()
+					if neg {
+						refuse = b.Succs[0]
+					}
+				}
+			}
+		} else if bin, isBin := cond.(*ssa.BinOp); isBin {
+			if k, isK := bin.Y.(*ssa.Const); isK && k.Value != nil && k.Value.Kind() == constant.String && constant.StringVal(k.Value) == "y" {
+				refuse, pos = b.Succs[0], iff.Pos()
+				if (bin.Op == token.EQL) != neg {
+					refuse = b.Succs[1]
+				}
+			}
 		}
-		if k, isK := bin.Y.(*ssa.Const); !isK || k.Value == nil || k.Value.Kind() != constant.String || constant.StringVal(k.Value) != "y" {
+		if refuse == nil {
 			continue
-		}
-		refuse := b.Succs[0]
-		if bin.Op == token.EQL {
-			refuse = b.Succs[1]
 		}
 		reach := reachableFrom(refuse, nil)
-		r.Check(!reach[B], "refusal-exits", c.Pos(iff.Pos()), "any other answer ends the process (os.Exit) without generating", sprintf("generation reachable: %v", reach[B]))
+		reaches := false
+		if target != nil {
+			reaches = reach[target]
+		} else {
+			for blk := range reach {
+				if _, isRet := lastInstr(blk).(*ssa.Return); isRet {
+					reaches = true // the gate returns normally after a refusal
+				}
+			}
+		}
+		r.Check(!reaches, "refusal-exits", c.Pos(pos), "any other answer ends the process (os.Exit) without generating", sprintf("generation reachable: %v", reaches))
 	}
+	_ = refusals
+}
+
+// replacementListOrigin: the origin names a list built by a module helper from the planned change list that contains
+// an entry only for changes with Change == ChangeReplace.
+func replacementListOrigin(c *Ctx, pv *prov, origin, planned string) (bool, string) {
+	// shape: pkg.helper(<planned>)  (helpers with loops are kept opaque by the provenance engine)
+	i := strings.Index(origin, "(")
+	if i < 0 || !strings.HasSuffix(origin, ")") {
+		return false, ""
+	}
+	name, arg := origin[:i], origin[i+1:len(origin)-1]
+	if arg != planned {
+		return false, ""
+	}
+	var f *ssa.Function
+	for _, g := range c.Funcs {
+		if shortName(calleeFullNameOfFunc(g)) == name {
+			f = g
+		}
+	}
+	if f == nil || len(f.Params) != 1 {
+		return false, ""
+	}
+	// every append to the returned slice is under `<element of the parameter>.Change == ChangeReplace`
+	n := 0
+	for _, ci := range callsIn(f) {
+		bi, ok := ci.Common().Value.(*ssa.Builtin)
+		if !ok || bi.Name() != "append" {
+			continue
+		}
+		n++
+		under := false
+		for _, g := range guardsOf(ci.Block()) {
+			bin, isBin := g.Cond.(*ssa.BinOp)
+			if !isBin {
+				continue
+			}
+			kk, isKK := bin.Y.(*ssa.Const)
+			if !isKK || !c.isModNamed("ChangeType")(kk.Type()) {
+				continue
+			}
+			isReplace := (bin.Op == token.EQL && g.Truth) || (bin.Op == token.NEQ && !g.Truth)
+			o := uniq(pv.origins(bin.X, 0))
+			if isReplace && strings.HasSuffix(c.constName(kk.Type(), kk.Value), "ChangeReplace") && len(o) == 1 && strings.HasPrefix(o[0], "P("+c.FuncKey(f)+"."+f.Params[0].Name()+")") && strings.HasSuffix(o[0], ".Change") {
+				under = true
+			}
+		}
+		if !under {
+			return false, "the list of overwritten entities gets an entry outside `change.Change == ChangeReplace`"
+		}
+	}
+	if n == 0 {
+		return false, "the list of overwritten entities is never filled"
+	}
+	return true, ""
+}
+
+func calleeFullNameOfFunc(f *ssa.Function) string {
+	if f.Pkg != nil && f.Signature.Recv() == nil {
+		return f.Pkg.Pkg.Path() + "." + f.Name()
+	}
+	return f.String()
 }
 
 func lastInstr(b *ssa.BasicBlock) ssa.Instruction {
